@@ -21,6 +21,7 @@ error bound e (unit roundoff u); a discrepancy is accepted iff
 """
 
 import math
+import warnings
 
 from hypothesis import strategies as st
 
@@ -555,7 +556,9 @@ def _judge(case, col, m, order, tag, labels):
             kwargs["plan"] = plan
         if case["target"]:
             kwargs["target_db"] = db.copy()
-        out = api(f"simulate:{exec_order}", m.simulate, db, span, **kwargs)
+        with warnings.catch_warnings():     # simulate() resets the global warning filters; keep that local
+            warnings.simplefilter("ignore")
+            out = api(f"simulate:{exec_order}", m.simulate, db, span, **kwargs)
         O = {}
         for name in lhs_names + res_names + rhs_only:
             O[name] = _read_output(out, name, first, G, nv)
@@ -584,17 +587,17 @@ def _judge(case, col, m, order, tag, labels):
             W, info = refs[exec_order][v]
             par = {nm: float(vals[min(v, len(vals) - 1)]) for nm, vals in case["params"].items()}
 
+            k_holder = [0]
+
             # values as irispie left them; beyond the span end the (removed) terminal cells are the input
-            def get(name, s, _v=v, _k=[0]):
+            def get(name, s, _v=v, _k=k_holder, _O=O):
                 kk = _k[0] + s
                 gg = kk + P
                 if gg < 0 or gg >= G:
                     return (NAN, 0.0)
                 if kk >= T:
                     return (_cell(case, name, _v, gg), 0.0)
-                return (O[name][_v][gg], 0.0)
-
-            k_holder = get.__defaults__[1]
+                return (_O[name][_v][gg], 0.0)
 
             # ---- cells that are not simulated ---------------------------------
             for name in lhs_names + res_names + rhs_only:
@@ -717,7 +720,10 @@ def _check(case):
                 col.check(_order_is_valid(case, new_order), "sequentialize:invalid_order",
                           lambda: f"sequentialize() returned {eids!r} for {_source(case, base_order)}")
                 if not col.items:
-                    _judge(case, col, m, new_order, "sequentialized", labels)
+                    try:
+                        _judge(case, col, m, new_order, "sequentialized", labels)
+                    except _Skip as sk:
+                        labels.append(f"sequentialized:domain_skip:{sk.reason}")
     except _Skip as sk:
         return {"labels": [f"domain_skip:{sk.reason}"], "nontrivial": False}
     col.done()
@@ -856,19 +862,39 @@ def _draw_column(draw, lo, hi, G):
 
 @st.composite
 def _case(draw, shuffled=False):
+    # ---- configuration first (small choices early in the choice sequence) ----------
     n = draw(st.sampled_from((2, 2, 3, 3, 4, 5, 6) if shuffled else (1, 1, 2, 2, 3, 3, 4, 5, 6)))
     T = draw(st.integers(1, 8))
-    nv = draw(st.sampled_from((1, 1, 1, 2)))
-    allow_leads = draw(st.integers(0, 4)) == 0
-    lhs = [f"x{i}" for i in range(n)]
+    nv = 2 if draw(st.integers(0, 2)) == 2 else 1
+    allow_leads = draw(st.integers(0, 4)) == 4
+    freq = draw(st.sampled_from(("qq", "yy", "mm", "ii")))
+    o = draw(st.integers(0, 40))
+    target = draw(st.integers(0, 3)) == 3
+    perm = list(draw(st.permutations(list(range(n))))) if shuffled else None
     trs = [draw(st.sampled_from(TRANSFORMS)) for _ in range(n)]
-    idents = [draw(st.integers(0, 4)) == 0 for _ in range(n)]
+    idents = [draw(st.integers(0, 5)) == 5 for _ in range(n)]
+    lhs = [f"x{i}" for i in range(n)]
+    exogenizable = [lhs[i] for i in range(n) if not idents[i]]
+    plan = []
+    if exogenizable:
+        for _ in range((0, 1, 1, 1, 2, 2, 3)[draw(st.integers(0, 6))]):
+            if draw(st.integers(0, 4)) == 4:
+                names = "all"
+            else:
+                names = sorted(set(draw(st.lists(st.sampled_from(exogenizable), min_size=1, max_size=2))))
+            if draw(st.integers(0, 3)) == 3:
+                periods = "all"
+            else:
+                periods = sorted(set(draw(st.lists(st.integers(0, T - 1), min_size=1, max_size=3))))
+            plan.append({"names": names, "periods": periods, "transform": draw(st.sampled_from(_EXO_TRANSFORMS)),
+                         "when_data": draw(st.booleans())})
+
+    # ---- equations -------------------------------------------------------------------
     kinds = {lhs[i]: ("pos" if trs[i] in POS_TRANSFORMS else "real") for i in range(n)}
     zs = [f"z{i}" for i in range(draw(st.integers(0, 2)))]
     for z in zs:
         kinds[z] = draw(st.sampled_from(("pos", "real")))
     params = [(f"p{i}", draw(st.sampled_from(("pos", "real")))) for i in range(draw(st.integers(0, 3)))]
-
     eqs = []
     for i in range(n):
         refs = [(lhs[i], kinds[lhs[i]], (-1, -1, -2, -3))]
@@ -881,7 +907,7 @@ def _case(draw, shuffled=False):
             refs.append((z, kinds[z], (0, 0, -1, -2) + ((1,) if allow_leads else ())))
         ctx = _Ctx(refs, params)
         tree = _draw_tree(draw, ctx, "real", draw(st.integers(0, 3)))
-        if trs[i] in ("diff_log", "roc", "log") and draw(st.integers(0, 3)) != 0:
+        if trs[i] in ("diff_log", "roc", "log") and draw(st.integers(0, 3)) != 3:
             tree = ["*", ["c", 10], tree]
             if trs[i] == "roc":
                 tree = ["+", ["c", 100], tree]
@@ -889,14 +915,14 @@ def _case(draw, shuffled=False):
 
     all_refs = [r for e in eqs for r in _references(e["rhs"])]
     used = {nm for nm, _ in all_refs}
-    max_lag = max([1] + [-s for _, s in all_refs])
-    P = max_lag + 1
+    P = max([1] + [-s for _, s in all_refs]) + 1
     F = max([0] + [s for _, s in all_refs])
     G = P + T + F
 
     def ncols():
         return nv if (nv > 1 and draw(st.booleans())) else 1
 
+    # ---- input data ------------------------------------------------------------------
     data = {}
     for name in lhs + [z for z in zs if z in used]:
         lo, hi = _value_range(kinds[name])
@@ -922,29 +948,12 @@ def _case(draw, shuffled=False):
             lo, hi = (10, 150) if kd == "pos" else (-150, 150)
             param_values[nm] = [x / 100.0 for x in draw(st.lists(st.integers(lo, hi), min_size=nv, max_size=nv))]
 
-    exogenizable = [lhs[i] for i in range(n) if not idents[i]]
-    plan = []
-    if exogenizable:
-        for _ in range(draw(st.sampled_from((0, 0, 1, 1, 1, 2, 3)))):
-            if draw(st.integers(0, 4)) == 0:
-                names = "all"
-            else:
-                names = sorted(set(draw(st.lists(st.sampled_from(exogenizable), min_size=1, max_size=2))))
-            if draw(st.integers(0, 3)) == 0:
-                periods = "all"
-            else:
-                periods = sorted(set(draw(st.lists(st.integers(0, T - 1), min_size=1, max_size=3))))
-            plan.append({"names": names, "periods": periods, "transform": draw(st.sampled_from(_EXO_TRANSFORMS)),
-                         "when_data": draw(st.booleans())})
-    case = {"freq": draw(st.sampled_from(("qq", "yy", "mm", "ii"))), "o": draw(st.integers(0, 40)), "T": T, "nv": nv,
-            "eqs": eqs, "perm": None, "params": param_values, "P": P, "F": F, "data": data, "plan": plan,
-            "target": draw(st.integers(0, 3)) == 0}
-    if shuffled:
-        case["perm"] = list(draw(st.permutations(list(range(n)))))
+    case = {"freq": freq, "o": o, "T": T, "nv": nv, "eqs": eqs, "perm": perm, "params": param_values,
+            "P": P, "F": F, "data": data, "plan": plan, "target": target}
 
-    # data for the exogenized points
+    # ---- data for the exogenized points ----------------------------------------------
     points = _plan_map(case)
-    full = {}
+    full = {}       # exo series name -> (fill the unplanned span cells too, lhs name, transform)
     for (nm, k), (tr, wd) in sorted(points.items(), key=lambda kv: (kv[0][0], kv[0][1])):
         g = k + P
         if tr is None:
@@ -956,18 +965,16 @@ def _case(draw, shuffled=False):
         en = _exo_name(nm, tr)
         if en not in data:
             data[en] = [[None] * G for _ in range(ncols())]
-            full[en] = draw(st.integers(0, 2)) == 0
+            full[en] = (draw(st.integers(0, 2)) == 2, nm, tr)
         lo, hi = _EXO_RANGE[tr]
         for col_ in data[en]:
             if wd and draw(st.booleans()):
                 continue
             col_[g] = draw(st.integers(lo, hi)) / 100.0
-    for en, is_full in sorted(full.items()):
+    for en, (is_full, nm, tr) in sorted(full.items()):
         if not is_full:
             continue
-        tr = next(t for t in _EXO_RANGE if en.startswith(t + "_x"))
         lo, hi = _EXO_RANGE[tr]
-        nm = en[len(tr) + 1:]
         for col_ in data[en]:
             for k in range(T):
                 if (nm, k) not in points or points[(nm, k)][0] != tr:
@@ -987,14 +994,23 @@ def _shuffled_case():
 # Known-finding matchers
 # ---------------------------------------------------------------------------
 
-def _bucket_matcher(prefix, pred=None):
-    def fn(subcheck, case, bucket, message):
-        return bucket.startswith(prefix) and (pred is None or pred(case))
-    return fn
+def _exogenized_residual(subcheck, case, bucket, message):
+    """Residual written at an exogenized point (equation on the output, or the same step under stale information)."""
+    return bucket.startswith("equation:exogenized") or (bucket.startswith("own_information:") and bucket.endswith(":exogenized"))
+
+
+def _change_transform_without_lag(subcheck, case, bucket, message):
+    """simulate() raises for a diff/diff_log/roc/pct exogenized point in the first period of a model without lags."""
+    if not (bucket.startswith("simulate:") and ":raises:IrisPieCritical" in bucket):
+        return False
+    refs = [s for e in case["eqs"] for _, s in _references(e["rhs"])]
+    no_lag = all(s >= 0 for s in refs) and all(e["tr"] not in LAG_TRANSFORMS for e in case["eqs"])
+    return no_lag and any(k == 0 and tr in LAG_TRANSFORMS for (_, k), (tr, _) in _plan_map(case).items())
 
 
 FINDING_MATCHERS = {
-    "exogenized_residual_is_increment": _bucket_matcher("equation:exogenized"),
+    "exogenized_residual_is_increment": _exogenized_residual,
+    "exogenized_change_transform_without_model_lag": _change_transform_without_lag,
 }
 
 
